@@ -160,6 +160,22 @@ func (s *State) assume(t *Term) {
 		}
 		return
 	}
+	if t.Op == "=>" && len(t.Args) == 2 {
+		// modus ponens on what is literally known: conjuncts of the antecedent that are hypotheses already are dropped
+		var rest []*Term
+		dropped := false
+		for _, a := range conjuncts(t.Args[0]) {
+			if s.hypSet[a.String()] {
+				dropped = true
+				continue
+			}
+			rest = append(rest, a)
+		}
+		if dropped {
+			s.assume(Implies(And(rest...), t.Args[1]))
+			return
+		}
+	}
 	k := t.String()
 	if s.hypSet[k] {
 		return
